@@ -290,7 +290,7 @@ func CheckC15(c *Ctx) (*Outcome, error) {
 		nLayouts, nHist = 4000, 800
 	}
 	note := c.noteObs("c15aux")
-	opts := LayoutOpts{CustomTags: true, Absolute: true, Guarded: true, UserPkgs: true, GuardedUser: true}
+	opts := LayoutOpts{CustomTags: true, Absolute: true, Guarded: true, UserPkgs: true, GuardedUser: true, GlobalOutFile: true}
 	onObs := func(h *History, obs []*Obs) {
 		note(h, obs)
 		for _, o := range obs {
